@@ -87,7 +87,7 @@ package keeper
 //@       bal(moduleAddr("node"), shard.Pledge.Denom) - old(bal(moduleAddr("node"), shard.Pledge.Denom)) == old(bal(sp, shard.Pledge.Denom)) - bal(sp, shard.Pledge.Denom)
 //@   ensures [C07.release.bankframe] err == nil ==> forall a addr, d string :: (a != sp && a != moduleAddr("node")) || shard == nil || d != shard.Pledge.Denom ==> bal(a, d) == old(bal(a, d))
 //@   ensures [C14.release.used] err == nil && shard != nil && shard.Size_ <= old(Pledge[str(sp)].UsedStorage) ==> Pledge[str(sp)].UsedStorage == old(Pledge[str(sp)].UsedStorage) - shard.Size_
-//@   ensures [C14.release.spledge] [C02.release.spledge] err == nil && shard != nil ==> Pledge[str(sp)].TotalShardPledged.Amount == old(Pledge[str(sp)].TotalShardPledged.Amount) - shard.Pledge.Amount
+//@   ensures [C14.release.spledge] [C02.release.spledge] [C06.release.spledge] err == nil && shard != nil ==> Pledge[str(sp)].TotalShardPledged.Amount == old(Pledge[str(sp)].TotalShardPledged.Amount) - shard.Pledge.Amount
 //@       && Pledge[str(sp)].TotalShardPledged.Amount >= 0
 //@   ensures [C14.release.other] err == nil ==> has(Pledge, str(sp)) && Pledge[str(sp)].TotalStorage == old(Pledge[str(sp)].TotalStorage)
 //@       && Pledge[str(sp)].TotalStoragePledged == old(Pledge[str(sp)].TotalStoragePledged) && Pledge[str(sp)].Creator == str(sp)
@@ -125,7 +125,7 @@ package keeper
 //@   ensures [C07.pledge.bankframe] err == nil ==> forall a addr, d string :: (a != addr(old(shard.Sp)) && a != moduleAddr("node")) || d != shard.Pledge.Denom ==> bal(a, d) == old(bal(a, d))
 //@   ensures [C07.pledge.capacity] err == nil && old(pledgeWf(Pledge[shard.Sp])) ==> pledgeWf(Pledge[shard.Sp]) && old(Pledge[shard.Sp].TotalStorage - Pledge[shard.Sp].UsedStorage) >= shard.Size_
 //@   ensures [C14.pledge.used] err == nil && old(pledgeWf(Pledge[shard.Sp])) ==> Pledge[shard.Sp].UsedStorage == old(Pledge[shard.Sp].UsedStorage) + shard.Size_
-//@   ensures [C14.pledge.spledge] [C02.pledge.spledge] err == nil ==> Pledge[shard.Sp].TotalShardPledged.Amount == old(Pledge[shard.Sp].TotalShardPledged.Amount) + shard.Pledge.Amount
+//@   ensures [C14.pledge.spledge] [C02.pledge.spledge] [C06.pledge.spledge] err == nil ==> Pledge[shard.Sp].TotalShardPledged.Amount == old(Pledge[shard.Sp].TotalShardPledged.Amount) + shard.Pledge.Amount
 //@   ensures [C14.pledge.other] err == nil ==> has(Pledge, shard.Sp) && Pledge[shard.Sp].TotalStorage == old(Pledge[shard.Sp].TotalStorage)
 //@       && Pledge[shard.Sp].TotalStoragePledged == old(Pledge[shard.Sp].TotalStoragePledged) && Pledge[shard.Sp].Creator == shard.Sp
 //@       && Pledge[shard.Sp].Reward.Denom == old(Pledge[shard.Sp].Reward.Denom) && Pledge[shard.Sp].RewardDebt.Denom == old(Pledge[shard.Sp].RewardDebt.Denom)
